@@ -25,6 +25,7 @@ type Program struct {
 	AllFuncs map[*ssa.Function]bool // ssautil.AllFunctions
 	Config   string                 // description of the build configuration
 	startup  map[*ssa.Global]*startupEntry
+	tables   map[*ssa.Global][]int64
 }
 
 type LoadOptions struct {
